@@ -199,6 +199,8 @@ def boolify(v):
         return v.n > 0
     if isinstance(v, (ObjV, ClsV, FuncV, ChoiceV)):
         return z3.BoolVal(True)
+    if type(v).__name__ == "CArr":
+        return z3.BoolVal(True)         # non-NULL pointer (allocation failure is modelled by the raises clause)
     raise Unsupported(f"truthiness of {v!r}")
 
 
@@ -280,6 +282,10 @@ def merge_val(c, a, b, name="m"):
         return SeqV(z3.If(c, a.arr, b.arr), z3.If(c, a.n, b.n), a.elem)
     if isinstance(a, ClsV) and isinstance(b, ClsV) and a.name == b.name:
         return a
+    if type(a).__name__ == "CArr" and isinstance(b, StrV):
+        b = type(a)(b.arr, b.n, None, a.name)
+    if type(b).__name__ == "CArr" and isinstance(a, StrV):
+        a = type(b)(a.arr, a.n, None, b.name)
     if type(a).__name__ == "CArr" and type(b).__name__ == "CArr":
         if isinstance(a.arr, dict) != isinstance(b.arr, dict):
             raise Unsupported("cannot merge struct and scalar C arrays")
